@@ -74,25 +74,20 @@ def impl(c):
 def requests(c):
     ns, _ = note_list(c)
     beats = [[n[0], n[1]] for n in ns]
-    return [[110, GT.td_q(c["td"]), [[b, 5] for b in beats], [], [[b, 48] for b in hit_beats(c)] + beats, []]]
+    return [[110, GT.td_q(c["td"]), [], [], [[b, 48] for b in hit_beats(c)], []],
+            [111, GT.td_q(c["td"]), c["opt"], [G.sx_note(n) for n in ns]]]
 
 
 def model(c, ans):
     a = ans[0][1]
     if a[0] != 0:
         return {"error": a[0]}
-    ns, _ = note_list(c)
-    nh = len(hit_beats(c))
-    hits = [bool(x) for x in a[4][:nh]]
-    note_hit = [bool(x) for x in a[4][nh:]]
-    times = [GT.un_q(x) for x in a[2]]
+    hits = [bool(x) for x in a[4]]
+    b = ans[1][1]
     timed = []
-    for n, h, t in zip(ns, note_hit, times):
-        tq = [t.numerator, t.denominator]
-        if h or c["opt"] == 3:
-            timed.append([tq, n])
-        elif c["opt"] == 1 and n[3] == "1":
-            timed.append([tq, n[:3] + ["F"] + n[4:]])
+    for t, n in b[1]:
+        q = GT.un_q(t)
+        timed.append([[q.numerator, q.denominator], G.un_sx_note(n)])
     return {"hits": hits, "timed": timed}
 
 
